@@ -22,8 +22,6 @@ Tie to the source:
  (d) contracts: the NumPy reference itself is validated per case (dense state of the circuit recomputed with
      expm(-step*H) in Jordan–Wigner form; on-site operator algebra).
 """
-import cmath
-import itertools
 import math
 import time
 
@@ -649,8 +647,13 @@ def plan_probes(rng, fam, kind, spec, Nx, Ny, quick, recipe=None):
             for x0 in range(Nx - 1):          # every 2x2 window (windows away from the lattice edge see non-trivial legs)
                 for y0 in range(Ny - 1):
                     win = [(x0, y0), (x0 + 1, y0), (x0, y0 + 1), (x0 + 1, y0 + 1)]
-                    for k, distinct in ((4, True), (2, True), (rng.choice([2, 3, 4]), False)):
+                    for k, distinct in ((4, True), (rng.choice([2, 3, 4]), False)):
                         word, ss = word_on(win, k, distinct)
+                        probes.append({"fn": "measure_2x2", "ops": word, "sites": ss})
+                    for c in win:     # every corner of the window once in a two-operator word (the other corners empty)
+                        word, _ = word_on(win, 2, True)
+                        other = rng.choice([w for w in win if w != c])
+                        ss = [list(c), list(other)] if rng.random() < 0.5 else [list(other), list(c)]
                         probes.append({"fn": "measure_2x2", "ops": word, "sites": ss})
             for i in range(2 if quick else 4):
                 k = rng.choice([2, 3, 4])
@@ -1170,6 +1173,12 @@ def run(ctx):
                 "(+CTM 2x2/line/nsite_exact) on random neutral operator words incl. odd fermionic operators, repeated sites and "
                 "orders with i>j, against a NumPy Jordan-Wigner reference on to_tensor(); NTU metrics of all six cluster types; one "
                 "evolution_step_ with non-binding truncation.  A case is non-trivial if its circuit has a two-site gate; distinct by recipe")
+    ctx.notes += [
+        "domain restrictions of the probes (observations on the unchanged tree, no alarm): EnvCTM.measure_nsite_exact / measure_2x2 are "
+        "probed on lattices with Nx, Ny >= 2 only (on 1xN / Nx1 lattices they enlarge the window beyond the lattice and raise KeyError); "
+        "EnvBP.measure_nn on tree-cut lattices is probed on the bonds of the tree only (two sites joined by a D=1 bond but correlated "
+        "through the rest of the tree get the product of their marginals); EnvBP offers measure_1site / measure_nn only",
+    ]
     ctx.assumptions += [
         "to_tensor() returns the dense state in the PEPS fermionic order (property C11); validated per case against an independent NumPy "
         "Jordan-Wigner evolution of the same circuit (contract c12:contract:dense-state)",
